@@ -49,7 +49,7 @@ func (c06) Budget(tier string) runner.Budget {
 	if tier == "thorough" {
 		return runner.Budget{Plans: 30000, PlansPerProc: 15, Wall: 14 * time.Minute}
 	}
-	return runner.Budget{Plans: 800, PlansPerProc: 10, Wall: 100 * time.Second}
+	return runner.Budget{Plans: 4800, PlansPerProc: 30, Wall: 45 * time.Second}
 }
 
 func (c06) Describe() runner.Description {
@@ -92,18 +92,27 @@ func c06GenTx(r *simrt.Rand, i int) node.TxSpec {
 	case x < 88:
 		s.K = "apply"
 		s.From = 4 + r.Intn(4)
-		s.Miner = r.Intn(4)
+		s.Miner = s.From - 4 // account k applies for miner k (most later add-stake/refund then hit a registered miner)
+		if r.Chance(0.2) {
+			s.Miner = r.Intn(4)
+		}
 		s.MType = byte(r.Intn(2))
 		s.Stake = []uint64{400, 500, 2000, 100, 100000}[r.Intn(5)]
 	case x < 93:
 		s.K = "addstake"
 		s.From = 4 + r.Intn(4)
-		s.Miner = r.Intn(4)
+		s.Miner = s.From - 4
+		if r.Chance(0.3) {
+			s.Miner = r.Intn(4)
+		}
 		s.Stake = uint64([]int{1, 50, 400, 100000}[r.Intn(4)])
 	default:
 		s.K = "refund"
 		s.From = 4 + r.Intn(4)
-		s.Miner = r.Intn(4)
+		s.Miner = s.From - 4
+		if r.Chance(0.3) {
+			s.Miner = r.Intn(4)
+		}
 		s.Amount = []string{"1", "100", "400", "18446744073709551615"}[r.Intn(4)]
 	}
 	return s
@@ -177,6 +186,15 @@ func (c06) Exec(raw json.RawMessage, st *simrt.Stats, log *simrt.Log) *simrt.Vio
 		}
 		contracts = append(contracts, ex.Receipt.ContractAddress)
 		progOf[ex.Receipt.ContractAddress] = progs[k]
+	}
+	// second setup block: two registered miners (so that add-stake / refund find something)
+	{
+		m0 := node.TxSpec{K: "apply", From: 4, Miner: 0, MType: 0, Stake: 800, Salt: "setupm0"}.Build()
+		m1 := node.TxSpec{K: "apply", From: 5, Miner: 1, MType: 1, Stake: 2400, Salt: "setupm1"}.Build()
+		b2, err := n.CastBlock(node.BlockSpec{QN: 1, PV: 1, TimeMs: 2000, Txs: []*types.Transaction{m0, m1}})
+		if err != nil || n.Chain.AddBlockOnChain(node.CloneBlock(b2)) != types.AddBlockSucc {
+			panic(runner.InfraError{Msg: fmt.Sprintf("C06 setup block 2 failed: %v", err)})
+		}
 	}
 	simmap.Seed = simrt.Mix(p.Seed, 0x6d6170) | 1
 	st.Fault("map_order_seed")
